@@ -234,6 +234,10 @@ func (wr *warnResponseWrapper) flushBodyContents() error {
 }
 
 func (wr *warnResponseWrapper) statusCode() int {
+	if wr.status == 0 {
+		// the handler wrote nothing: net/http answers 200 for it
+		return http.StatusOK
+	}
 	return wr.status
 }
 
@@ -270,12 +274,16 @@ func (wr *strictResponseWrapper) Header() http.Header {
 }
 
 func (wr *strictResponseWrapper) flushBodyContents() error {
-	wr.w.WriteHeader(wr.status)
+	wr.w.WriteHeader(wr.statusCode())
 	_, err := wr.w.Write(wr.body.Bytes())
 	return err
 }
 
 func (wr *strictResponseWrapper) statusCode() int {
+	if wr.status == 0 {
+		// the handler wrote nothing: net/http answers 200 for it
+		return http.StatusOK
+	}
 	return wr.status
 }
 
